@@ -107,7 +107,7 @@ def mkvariants(rnd, n, small, complen=0, plainlen=0):
             og = rnd.choice([g for g in (OUT_G if small else OUT_G[6:]) if plainlen / g <= 40000] or [900000])
             env['LBZIP2_VERIF_OUT_GRANUL'] = str(og)
         slices = complen / (ig or 262144) + plainlen / (og or 900000)
-        if slices > 400 and 'straggler' in env.get('LBZIP2_VERIF_SCHED', ''):
+        if slices > 400 and ('straggler' in env.get('LBZIP2_VERIF_SCHED', '') or 'gaps' in env.get('LBZIP2_VERIF_SCHED', '')):
             env['LBZIP2_VERIF_SCHED'] = env['LBZIP2_VERIF_SCHED'].split(':')[0] + ':jitter'
         if slices > 20000:
             env.pop('LBZIP2_VERIF_SCHED', None)
@@ -154,7 +154,7 @@ def run(ctx):
         vs = mkvariants(rnd, nvar // 2, True, len(data), plen(data))
         for v in vs:
             v['env']['LBZIP2_VERIF_IN_GRANUL'] = str(4 * rnd.randrange(32, 700))
-            if 'straggler' in v['env'].get('LBZIP2_VERIF_SCHED', ''):
+            if 'straggler' in v['env'].get('LBZIP2_VERIF_SCHED', '') or 'gaps' in v['env'].get('LBZIP2_VERIF_SCHED', ''):
                 v['env'].pop('LBZIP2_VERIF_SCHED')
         cs.append(dict(name='synth:maxlen-groups', data=data, variants=vs))
     # valid streams whose coded data contains spurious block-header patterns (candidates the scanner reports and the parser
